@@ -687,3 +687,131 @@ Qed.
 
 Theorem lex_shift p s : lex p s = rshift (map (shift_tok p)) p (lex 0 s).
 Proof. unfold lex. rewrite <- (spec_shift p (S (length s)) 0 s). reflexivity. Qed.
+
+(* ---------- every token is the text at its position ---------- *)
+
+Definition lexeme (t : token) : str :=
+  match t with
+  | TUnderscore _ => s2l "_"
+  | TIdent i => id_name i
+  | TTerminalIdent i => ch "$" :: ti_name i
+  | TOuterAttribute a => at_src a
+  | TStartKw _ => s2l "start" | TStructKw _ => s2l "struct" | TEnumKw _ => s2l "enum" | TTerminalKw _ => s2l "terminal"
+  | TColon _ => s2l ":" | TDoubleColon _ => s2l "::" | TComma _ => s2l ","
+  | TLParen _ => s2l "(" | TRParen _ => s2l ")" | TLCurly _ => s2l "{" | TRCurly _ => s2l "}"
+  | TLAngle _ => s2l "<" | TRAngle _ => s2l ">"
+  end.
+
+Definition tok_pos (t : token) : N :=
+  match t with
+  | TUnderscore p => p
+  | TIdent i => id_pos i
+  | TTerminalIdent i => ti_dpos i - 1
+  | TOuterAttribute a => at_pos a
+  | TStartKw p | TStructKw p | TEnumKw p | TTerminalKw p
+  | TColon p | TDoubleColon p | TComma p | TLParen p | TRParen p | TLCurly p | TRCurly p | TLAngle p | TRAngle p => p
+  end.
+
+(* the token sits at byte offset `tok_pos` of the text starting at offset p, and its text is there *)
+Definition placed (p : N) (s : str) (t : token) : Prop :=
+  exists pre post, s = pre ++ lexeme t ++ post /\ tok_pos t = p + blen pre.
+
+Lemma placed_shift p s t pre0 : placed (p + blen pre0) s t -> placed p (pre0 ++ s) t.
+Proof.
+  intros (pre & post & -> & Hp). exists (pre0 ++ pre), post. split; [rewrite <- app_assoc; reflexivity|].
+  rewrite blen_app, Hp. lia.
+Qed.
+
+Lemma reserved_word_lexeme name mk p : reserved_word name = Some mk -> lexeme (mk p) = name /\ tok_pos (mk p) = p.
+Proof.
+  unfold reserved_word.
+  repeat (match goal with |- context [if str_eqb name ?l then _ else _] =>
+                            let E := fresh "E" in destruct (str_eqb name l) eqn:E; [apply str_eqb_eq in E; subst name|clear E] end);
+    intros H; try discriminate; injection H as <-; split; reflexivity.
+Qed.
+
+Lemma single_char_lexeme c mk p : single_char_punctuation c = Some mk -> lexeme (mk p) = [c] /\ tok_pos (mk p) = p.
+Proof.
+  unfold single_char_punctuation.
+  repeat (match goal with |- context [if c =? ?l then _ else _] =>
+                            let E := fresh "E" in destruct (c =? l) eqn:E; [apply N.eqb_eq in E; subst c|clear E] end);
+    intros H; try discriminate; injection H as <-; split; reflexivity.
+Qed.
+
+Lemma attr_scan_text l : forall cnt q acc inner rest, attr_scan l cnt q acc = ADone inner rest ->
+  exists mid, l = mid ++ rest /\ inner = rev acc ++ mid.
+Proof.
+  induction l as [|c l IH]; intros cnt q acc inner rest H; cbn [attr_scan] in H; [discriminate|].
+  assert (Hstep : forall cnt' q', attr_scan l cnt' q' (c :: acc) = ADone inner rest -> exists mid, c :: l = mid ++ rest /\ inner = rev acc ++ mid).
+  { intros cnt' q' H'. destruct (IH _ _ _ _ _ H') as (mid & -> & ->). exists (c :: mid). split; [reflexivity|]. cbn [rev]. rewrite <- app_assoc. reflexivity. }
+  destruct (is_open_bracket c); [eapply Hstep; eauto|].
+  destruct (is_close_bracket c).
+  - destruct (cnt =? 1); [|eapply Hstep; eauto]. injection H as <- <-. exists [c]. split; [reflexivity|]. reflexivity.
+  - destruct (c =? 10); [discriminate|eapply Hstep; eauto].
+Qed.
+
+Lemma rmap_cons_Forall (tok : token) (r : res (list token)) toks : rmap (cons tok) r = Ok toks ->
+  exists toks', r = Ok toks' /\ toks = tok :: toks'.
+Proof. destruct r; cbn; intros H; try discriminate. injection H as <-. eauto. Qed.
+
+Theorem spec_placed : forall f p s toks, spec f p s = Ok toks -> forall t, In t toks -> placed p s t.
+Proof.
+  induction f as [|f IH]; intros p s toks H t Hin; [discriminate|]. destruct s as [|c r]; [injection H as <-; destruct Hin|]. cbn [spec] in H.
+  assert (Hrec : forall (pre0 : str) (rest : str) toks', c :: r = pre0 ++ rest -> spec f (p + blen pre0) rest = Ok toks' -> In t toks' -> placed p (c :: r) t).
+  { intros pre0 rest toks' Hsplit Hs Ht. rewrite Hsplit. apply placed_shift. apply (IH _ _ _ Hs t Ht). }
+  assert (Htok : forall (tok : token) (lex rest : str) toks', c :: r = lex ++ rest -> lexeme tok = lex -> tok_pos tok = p ->
+                   spec f (p + blen lex) rest = Ok toks' -> toks = tok :: toks' -> placed p (c :: r) t).
+  { intros tok lex rest toks' Hsplit Hl Hp Hs ->. destruct Hin as [<-|Ht]; [|apply (Hrec lex rest toks' Hsplit Hs Ht)].
+    exists [], rest. split; [rewrite Hl; exact Hsplit|]. rewrite Hp. cbn. lia. }
+  destruct (is_whitespace c).
+  { apply (Hrec [c] r toks eq_refl); [rewrite blen_one; exact H|exact Hin]. }
+  destruct (c =? ch "/") eqn:Esl.
+  { apply N.eqb_eq in Esl. subst c. destruct r as [|c2 r2]; [discriminate|]. destruct (c2 =? ch "/") eqn:E2; [|discriminate].
+    apply N.eqb_eq in E2. subst c2. destruct (span (fun x => negb (x =? 10)) r2) as [body rest] eqn:Es.
+    destruct (span_app _ _ _ _ Es) as (-> & _ & Hb). destruct rest as [|nl rest']; [injection H as <-; destruct Hin|].
+    apply (Hrec (ch "/" :: ch "/" :: body ++ [nl]) rest' toks); [cbn [app]; rewrite <- app_assoc; reflexivity| |exact Hin].
+    apply negb_false_iff, N.eqb_eq in Hb. subst nl. cbn [blen]. rewrite blen_app, blen_one. change (len_utf8 (ch "/")) with 1. change (len_utf8 10) with 1.
+    replace (p + (1 + (1 + (blen body + 1)))) with (p + 2 + blen body + 1) by lia. exact H. }
+  destruct (ident_start c).
+  { destruct (span ident_cont r) as [more rest] eqn:Es. destruct (span_app _ _ _ _ Es) as (-> & _ & _).
+    apply rmap_cons_Forall in H as (toks' & Hs & Ht).
+    destruct (reserved_word (c :: more)) as [mk|] eqn:Er.
+    - destruct (reserved_word_lexeme _ _ p Er) as (Hl & Hp). apply (Htok (mk p) (c :: more) rest toks' eq_refl Hl Hp Hs Ht).
+    - apply (Htok (TIdent {| id_name := c :: more; id_pos := p |}) (c :: more) rest toks' eq_refl eq_refl eq_refl Hs Ht). }
+  destruct (c =? ch "$") eqn:Edl.
+  { apply N.eqb_eq in Edl. subst c. destruct r as [|c2 r2]; [discriminate|]. destruct (ident_start c2); [|discriminate].
+    destruct (span ident_cont r2) as [more rest] eqn:Es. destruct (span_app _ _ _ _ Es) as (-> & _ & _).
+    destruct (reserved_word (c2 :: more)); [discriminate|].
+    apply rmap_cons_Forall in H as (toks' & Hs & Ht).
+    apply (Htok (TTerminalIdent {| ti_name := c2 :: more; ti_dpos := p + 1 |}) (ch "$" :: c2 :: more) rest toks' eq_refl eq_refl); [cbn; lia| |exact Ht].
+    cbn [blen]. change (len_utf8 (ch "$")) with 1. rewrite N.add_assoc. exact Hs. }
+  destruct (c =? ch ":") eqn:Ecl.
+  { apply N.eqb_eq in Ecl. subst c. destruct r as [|c2 r2].
+    - injection H as <-. destruct Hin as [<-|[]]. exists [], []. split; [reflexivity|cbn; lia].
+    - destruct (c2 =? ch ":") eqn:E2.
+      + apply N.eqb_eq in E2. subst c2. apply rmap_cons_Forall in H as (toks' & Hs & Ht).
+        apply (Htok (TDoubleColon p) [ch ":"; ch ":"] r2 toks' eq_refl eq_refl eq_refl); [|exact Ht]. cbn [blen]. change (len_utf8 (ch ":")) with 1.
+        replace (p + (1 + (1 + 0))) with (p + 2) by lia. exact Hs.
+      + apply rmap_cons_Forall in H as (toks' & Hs & Ht).
+        apply (Htok (TColon p) [ch ":"] (c2 :: r2) toks' eq_refl eq_refl eq_refl); [|exact Ht]. rewrite blen_one. exact Hs. }
+  destruct (c =? ch "#") eqn:Epd.
+  { apply N.eqb_eq in Epd. subst c. destruct r as [|c2 r2]; [discriminate|]. destruct (c2 =? ch "[") eqn:E2; [|discriminate].
+    apply N.eqb_eq in E2. subst c2. destruct (attr_scan r2 1 (p + 2) [ch "["]) as [|q|inner rest] eqn:Ea; try discriminate.
+    destruct (attr_scan_text _ _ _ _ _ _ Ea) as (mid & -> & ->).
+    destruct (check_brackets _ []) as [[]| | |]; try discriminate.
+    apply rmap_cons_Forall in H as (toks' & Hs & Ht).
+    apply (Htok (TOuterAttribute {| at_src := ch "#" :: rev [ch "["] ++ mid; at_pos := p |}) (ch "#" :: rev [ch "["] ++ mid) rest toks'); [cbn [rev app]; reflexivity|reflexivity|reflexivity| |exact Ht].
+    cbn [blen]. change (len_utf8 (ch "#")) with 1. rewrite N.add_assoc. exact Hs. }
+  destruct (single_char_punctuation c) as [mk|] eqn:Ep; [|discriminate].
+  apply rmap_cons_Forall in H as (toks' & Hs & Ht).
+  destruct (single_char_lexeme c mk p Ep) as (Hl & Hp).
+  apply (Htok (mk p) [c] r toks' eq_refl Hl Hp); [rewrite blen_one; exact Hs|exact Ht].
+Qed.
+
+(* C08/C12: every token the tokenizer returns is the text found at its own byte offset in the source *)
+Theorem tokens_are_where_they_say src toks : tokenize src = Ok toks ->
+  forall t, In t toks -> exists pre post, src = pre ++ lexeme t ++ post /\ tok_pos t = blen pre.
+Proof.
+  rewrite tokenize_is_spec. intros H t Hin. destruct (spec_placed _ _ _ _ H t Hin) as (pre & post & Hs & Hp).
+  exists pre, post. split; [exact Hs|]. rewrite Hp. lia.
+Qed.
